@@ -5,7 +5,7 @@ cd /verif
 par=${1:-3}
 pat=${2:-.}       # optional grep pattern over the seed directory names (e.g. '-[GH]$')
 suite=${SUITE---suite}   # SUITE= (empty) skips the full existing suite
-ls -d seeded/*/ | sed 's#/$##' | grep -E -- "$pat" | suite=$suite xargs -P "$par" -I{} sh -c 'python3 tools/seedcheck.py {} $suite > {}/confirmation.json.tmp 2> tmp/$(basename {}).confirm.err && mv {}/confirmation.json.tmp {}/confirmation.json; python3 - {} <<PY
+ls -d seeded/*/ | sed 's#/$##' | grep -E -- "$pat" | suite=$suite xargs -P "$par" -I{} sh -c 'python3 tools/seedcheck.py {} $suite > {}/confirmation.json.tmp 2> tmp/$(basename {}).confirm.err && python3 tools/seedmerge.py {}/confirmation.json {}/confirmation.json.tmp && mv {}/confirmation.json.tmp {}/confirmation.json; python3 - {} <<PY
 import json,sys
 d=json.load(open(sys.argv[1]+"/confirmation.json"))
 print(sys.argv[1], "applies",d.get("applies"),"demoFail",d.get("demo_fails_with_patch"),"demoPass",d.get("demo_passes_without_patch"),"suite",d.get("suite_passes_with_patch"),"caught",d.get("caught_by"), d.get("suite_bad",""))
